@@ -1,14 +1,110 @@
-//! hll family: to be written (see /verif/AGENT_GUIDE.md).
-use crate::{Family, Ob, PANIC};
+//! hll family: replays HLL cases on the real crate (property C02 and the HLL legs of later
+//! properties).  A case holds two groups of three sketches (Hll4, Hll6, Hll8) with one lg_k;
+//! stream ops feed all three sketches of a group in lock-step.
+//!
+//! cfg = [lg_k]
+//! ops: 1 upd g item coupon   public `update(item as i64)` (the coupon is the reference value for the model)
+//!      2 cpn g coupon        hook `verif_update_with_coupon`
+//!      3 dump g t            canonical state
+//!      4 est g t             [estimate bits]
+//!      5 bounds g t          [lb1 lb2 lb3 ub1 ub2 ub3] bits
+//!      6 raw g t             container / aux table in storage order
+//!      7 ser g t             serialized bytes
+use datasketches::common::NumStdDev;
+use datasketches::hll::{HllSketch, HllType};
 
-pub struct Fam;
+use crate::{fbits, Family, Ob, PANIC};
+
+pub struct Fam {
+    sk: Vec<HllSketch>,
+}
+
+const TYPES: [HllType; 3] = [HllType::Hll4, HllType::Hll6, HllType::Hll8];
+
+fn dump(s: &HllSketch) -> Ob {
+    let st = s.verif_state();
+    let mut ob: Ob = vec![st.mode as i128, st.lg_config_k as i128, st.target_type as i128];
+    if st.mode < 2 {
+        ob.push(st.lg_size as i128);
+        ob.push(st.len as i128);
+        let mut cs: Vec<u32> = st.raw_coupons.iter().copied().filter(|c| *c != 0).collect();
+        cs.sort_unstable();
+        ob.extend(cs.iter().map(|c| *c as i128));
+    } else {
+        ob.push(st.cur_min as i128);
+        ob.push(st.num_at_cur_min as i128);
+        ob.push(st.out_of_order as i128);
+        ob.push(fbits(st.hip_accum));
+        ob.push(fbits(st.kxq0));
+        ob.push(fbits(st.kxq1));
+        let kmask = (1u32 << st.lg_config_k) - 1;
+        let mut aux: Vec<(u32, u32)> =
+            st.aux_raw.iter().filter(|e| **e != 0).map(|e| (e & 0x3ff_ffff & kmask, e >> 26)).collect();
+        aux.sort_unstable();
+        ob.push(aux.len() as i128);
+        for (s, v) in aux {
+            ob.push(s as i128);
+            ob.push(v as i128);
+        }
+        ob.extend(st.registers.iter().map(|v| *v as i128));
+    }
+    ob
+}
 
 impl Family for Fam {
-    fn new(_cfg: &[i128]) -> Self {
-        Fam
+    fn new(cfg: &[i128]) -> Self {
+        let lg_k = cfg[0] as u8;
+        let mut sk = Vec::new();
+        for _g in 0..2 {
+            for t in TYPES {
+                sk.push(HllSketch::new(lg_k, t));
+            }
+        }
+        Fam { sk }
     }
 
-    fn step(&mut self, _code: i64, _a: &[i128]) -> Ob {
-        vec![PANIC]
+    fn step(&mut self, code: i64, a: &[i128]) -> Ob {
+        let g = a[0] as usize;
+        match code {
+            1 => {
+                for t in 0..3 {
+                    self.sk[g * 3 + t].update(a[1] as i64);
+                }
+                vec![]
+            }
+            2 => {
+                for t in 0..3 {
+                    self.sk[g * 3 + t].verif_update_with_coupon(a[1] as u32);
+                }
+                vec![]
+            }
+            3 => dump(&self.sk[g * 3 + a[1] as usize]),
+            4 => vec![fbits(self.sk[g * 3 + a[1] as usize].estimate())],
+            5 => {
+                let s = &self.sk[g * 3 + a[1] as usize];
+                vec![
+                    fbits(s.lower_bound(NumStdDev::One)),
+                    fbits(s.lower_bound(NumStdDev::Two)),
+                    fbits(s.lower_bound(NumStdDev::Three)),
+                    fbits(s.upper_bound(NumStdDev::One)),
+                    fbits(s.upper_bound(NumStdDev::Two)),
+                    fbits(s.upper_bound(NumStdDev::Three)),
+                ]
+            }
+            6 => {
+                let st = self.sk[g * 3 + a[1] as usize].verif_state();
+                if st.mode < 2 {
+                    let mut ob: Ob = vec![st.lg_size as i128, st.len as i128];
+                    ob.extend(st.raw_coupons.iter().map(|c| *c as i128));
+                    ob
+                } else {
+                    let mut ob: Ob = vec![st.aux_lg_size as i128, st.aux_count as i128];
+                    ob.extend(st.aux_raw.iter().map(|c| *c as i128));
+                    ob
+                }
+            }
+            7 => self.sk[g * 3 + a[1] as usize].serialize().iter().map(|b| *b as i128).collect(),
+            _ => vec![PANIC],
+        }
     }
 }
